@@ -153,9 +153,9 @@ def run_chunk(chunk, ctx):
         if status == "gap":
             col.gap(str(res)[:100])
         elif status == "timeout":
-            from symx.native import site_of
+            from symx.native import hang_site
             m = ex.model()
-            col.violation("hang::" + site_of(res.__traceback__), "conforming file makes the analysis hang",
+            col.violation("hang::" + hang_site(res.__traceback__), "conforming file makes the analysis hang",
                           dict(name=prog.name, text=SymStr(items).concretize(m)))
         elif status == "ok" and not cur.get("viol") and col.want_witness():
             m = ex.model()
